@@ -90,6 +90,7 @@ class _SearchHSP:
         self.hit_end = hit["e"]
         self.bitscore = float(hit["sc"])
         self.evalue = 1e-10
+        self.query_start, self.query_end = hit["s"], hit["e"]      # (carried into the hits find_hmmer_hits returns)
         self._slot = slot
 
     def __hash__(self):
@@ -178,6 +179,36 @@ def _run_task(task, mods):
                     res["hits"] = ordered
                     results.append(res)
             out[key] = results
+        # the two filters as the pipeline composes them (find_hmmer_hits, the search itself replaced by the hits of the case):
+        # competition between equivalent profiles first, then the best hit of each profile
+        import types
+        from unittest import mock
+        composed = []
+        for perm in task["perms"]:
+            ordered = [hits[i] for i in perm]
+            schedule = task["schedules"][0]
+
+            def call_composed(ordered=ordered, schedule=schedule):
+                def fresh():
+                    return [_SearchHSP(hit, _slot(schedule, idx, len(ordered))) for idx, hit in enumerate(ordered)]
+                objs = fresh()
+                by_id = {}
+                for obj in objs:
+                    by_id.setdefault(obj.hit_id, []).append(obj)
+                mid, _ = prediction.filter_results(list(objs), by_id, [set(g) for g in groups])
+                search = types.SimpleNamespace(accession="verif.1", hsps=fresh())
+                sigs = {hit["p"]: types.SimpleNamespace(cutoff=-1e9, seed_count=1) for hit in ordered}
+                with mock.patch.object(prediction, "run_hmmsearch", return_value=[search]), \
+                        mock.patch.object(prediction.fasta, "get_fasta_from_record", return_value=""):
+                    found = prediction.find_hmmer_hits(None, sigs, "", [set(g) for g in groups])
+                final = [{"g": h.hit_id, "p": h.query_id, "s": int(h.query_start), "e": int(h.query_end),
+                          "sc": _exact_int(h.bitscore, "bitscore")} for gene in found for h in found[gene]]
+                final.sort(key=lambda h: (h["s"], h["e"], h["g"], h["p"]))
+                return {"mid": [_project_search(h) for h in mid], "out": final}
+            res = _result(call_composed, {"mid": [], "out": []})
+            res["hits"] = ordered
+            composed.append(res)
+        out["fh"] = composed
     else:
         raise ValueError(task["op"])
     return out
@@ -542,6 +573,7 @@ def _observe(ctx, cases, seeds, rng):
         else:
             event["fr"] = collected[seeds[0]][case["id"]]["fr"]
             event["fm"] = collected[seeds[0]][case["id"]]["fm"]
+            event["fh"] = collected[seeds[0]][case["id"]]["fh"]
         events.append(event)
     return events
 
@@ -556,7 +588,7 @@ def _distinct(results):
 
 
 def _observed(event):
-    keys = {"refine": ("d", "n"), "nooverlap": ("outs",), "compete": ("fr", "fm")}[event["op"]]
+    keys = {"refine": ("d", "n"), "nooverlap": ("outs",), "compete": ("fr", "fm", "fh")}[event["op"]]
     return {key: {"runs": len(event[key]), "distinct_results": _distinct(event[key])} for key in keys}
 
 
